@@ -85,6 +85,9 @@ type c10History struct {
 	// that neither connects nor is refused, so the dialer blocks until its ctx is done.
 	ConnectTimeoutMs int `json:"connect_timeout_ms,omitempty"`
 	CloseTimeoutMs   int `json:"close_timeout_ms,omitempty"`
+	// NoWriteTimeout configures hsms.WithWriteTimeout(0) ("no write deadline", a documented setting): whatever the
+	// library writes on its own behalf during a teardown (the farewell Separate) must still be bounded.
+	NoWriteTimeout bool `json:"no_write_timeout,omitempty"`
 }
 
 func (h c10History) closeTimeout() time.Duration {
@@ -285,6 +288,26 @@ func c10LateAcceptDirected() []c10History {
 	return out
 }
 
+// c10WedgedPeerDirected: Close (graceful, from Selected) against a peer that stopped reading, with the write timeout
+// at its default and switched off (WithWriteTimeout(0)); both roles, HSMS-SS (the farewell Separate is an HSMS frame).
+// Close must return within the close timeout plus slack and leave nothing behind (after seeded change C10d-2).
+func c10WedgedPeerDirected() []c10History {
+	op := func(k string, a int) c10Op { return c10Op{Kind: k, Arg: a} }
+	var out []c10History
+	for _, role := range []string{"active", "passive"} {
+		for _, nowt := range []bool{false, true} {
+			behs := []string{"stallRead", "stallRead", "stallRead", "stallRead"}
+			out = append(out,
+				c10History{Role: role, Tag: "wedged-peer-close", Behs: behs, NoWriteTimeout: nowt,
+					Progs: [][]c10Op{{op("openWait", 600), op("sleep", 60), op("close", 0)}, {op("sleep", 900), op("state", 0)}}},
+				c10History{Role: role, Tag: "wedged-peer-close-reopen", Behs: behs, NoWriteTimeout: nowt,
+					Progs: [][]c10Op{{op("openWait", 600), op("sleep", 60), op("close", 0), op("openBg", 0), op("sleep", 150), op("close", 0)}}},
+			)
+		}
+	}
+	return out
+}
+
 type c10Result struct {
 	h          c10History
 	obs        []string
@@ -417,6 +440,8 @@ func c10RunHistory(h c10History) (res c10Result) {
 				_ = conn.Close()
 			}()
 			p.run()
+		case "stallRead": // completes the select, then stops reading for good (a wedged peer): every later write of the library blocks
+			mk(conn, lifeBehaviour{Kind: "stallRead"}).run()
 		case "stall":
 			if libActive {
 				mk(conn, lifeBehaviour{Kind: "stallSelect"}).run()
@@ -456,6 +481,9 @@ func c10RunHistory(h c10History) (res c10Result) {
 		hsms.WithT3(300 * time.Millisecond), hsms.WithT5(40 * time.Millisecond), hsms.WithT6(c10T6), hsms.WithT7(c10T7), hsms.WithT8(300 * time.Millisecond),
 		hsms.WithReconnectBackoff(5*time.Millisecond, 2), hsms.WithCloseTimeout(h.closeTimeout()), hsms.WithLogger(lifeNullLogger{}),
 		hsms.WithWriteTimeout(300 * time.Millisecond),
+	}
+	if h.NoWriteTimeout {
+		co = append(co, hsms.WithWriteTimeout(0))
 	}
 	if h.LongBackoff {
 		co = append(co, hsms.WithT5(10*time.Second), hsms.WithReconnectBackoff(5*time.Second, 2))
@@ -1363,6 +1391,7 @@ func runC10(c *Ctx) {
 	}
 	hs = append(hs, c10BlackholeDirected(slack)...)
 	hs = append(hs, c10LateAcceptDirected()...)
+	hs = append(hs, c10WedgedPeerDirected()...)
 	for i := 0; i < c.Pick(150, 2400); i++ {
 		hs = append(hs, c10GenHistory(c, 0))
 	}
